@@ -78,6 +78,8 @@ Definition C09_encode_statement (cfg : config) (w : list itask) (st : sst) : Pro
     exists before new after,
       c09_placed (lg st) t before new after
       /\ e = DAY * (eday + 1) - frac (used (balance cfg) before r eday t) (cap cfg r eday)
+      (* the day of the end had free capacity when the task was placed: the share is below 1 *)
+      /\ 0 <= used (balance cfg) before r eday t < cap cfg r eday
       /\ (balance cfg = false -> e = DAY * (eday + 1))
       /\ (new = [] -> s = e)
       /\ forall x rest, new = x :: rest ->
@@ -108,7 +110,7 @@ Proof.
   destruct (Hf Hleaf Hm) as [before [new [after [ed [Hp [Hd [Hu [Ee [Hskip Hst]]]]]]]]].
   fold r in Hu, Ee, Hskip, Hst.
   destruct (c09_eday e ed _ _ Hu Ee) as [Ed _]. fold eday in Ed. subst ed.
-  exists before, new, after. split; [exact Hp|]. split; [exact Ee|].
+  exists before, new, after. split; [exact Hp|]. split; [exact Ee|]. split; [exact Hu|].
   destruct Hp as [Hl [Hb [Ha Hnw]]]. simpl in Hl.
   split.
   { intros Hb0. rewrite Ee. rewrite Hb0. rewrite (c09_used_other before r eday t Hb), frac_zero. lia. }
@@ -124,6 +126,18 @@ Proof.
   split; [|exact (fr_nodup _ _ _ _ _ _ _ _ _ _ _ R)].
   intros Hb0. rewrite Hb0. rewrite Hl. rewrite (used_app false after (new ++ before)).
   rewrite (c09_used_other after r first t Ha). reflexivity.
+Qed.
+
+(* reservations are positive, so what is booked on a day only grows while later tasks are placed *)
+Lemma c09_booked_grows cfg w st :
+  WFin w -> cap_nonneg cfg -> no_user_dates w = true -> backward cfg w = Ok st ->
+  forall later before r d, lg st = later ++ before -> booked before r d <= booked (lg st) r d.
+Proof.
+  intros Hw Hc Hn H later before r d Hl. apply c09_no_user_dates_b in Hn.
+  pose proof (backward_inv09 cfg w st Hw Hc Hn H) as [[[Hpos _] _] _]. simpl in Hpos.
+  pose proof (used_app true later before r d 0%nat) as Ha.
+  pose proof (used_nonneg true later r d 0%nat (fun x Hx => Hpos x ltac:(rewrite Hl; apply in_or_app; left; exact Hx))) as Hn0.
+  rewrite Hl. unfold used in *. lia.
 Qed.
 
 (* ---------- (d) late packing (balancing on) ---------- *)
